@@ -1,5 +1,6 @@
 """C05 — the update stream reconstructs the parameter cache: implementation driver (real Module / Parameter /
-Dispatcher, fake driver methods, fake connections, virtual clock, 1..3 threads under harness/dsched.py),
+Dispatcher, fake driver methods, fake connections, virtual clock, 1..4 threads under harness/dsched.py: driver
+threads and connection threads running the real handle_activate / handle_deactivate / remove_connection),
 case encoder, direct oracle, generators"""
 import copy
 import json
@@ -17,7 +18,7 @@ PROPERTIES_V = 'theories/C05/Properties.v'
 IMPORTS = 'Require Import FV.Base.F64 FV.Base.PyVal FV.C01.Model FV.Gen.C05 FV.C05.Model FV.C05.Run.'
 CASE_TYPE = 'case'
 CHECK = 'check_case'
-SHARD_SIZE = 100
+SHARD_SIZE = 115
 RULE = ('a case = 1..2 real modules with 1..4 parameters drawn from a catalogue of 9 datatypes (double limited/unlimited, int, '
         'bool, enum, string, array of int, struct, tuple), each with its own export / update_unchanged setting '
         '(always, never, default through module or general setting, explicit interval) and initial state (default, value, '
@@ -26,9 +27,13 @@ RULE = ('a case = 1..2 real modules with 1..4 parameters drawn from a catalogue 
         'SECoP or foreign exception, the same exception instance again, a read calling another read that raises), wrapped '
         'write_ (with/without user method; returns value, None, Done, raises), attribute assignment of equal/different/'
         'invalid values, announceUpdate with error / explicit timestamp; every operation advances a virtual clock by 0..3 '
-        'ticks of 1/8 s.  Single-thread cases run directly; 2..3 thread cases run the real threads under dsched with yield '
-        'points at lock acquisition, in the fake driver, in time.time() and in send_reply (seeded random schedules + '
-        'systematic bounded-preemption schedules).  Compared with the model: resolved omit interval, every message per '
+        'ticks of 1/8 s.  Single-thread cases run directly; 2..4 thread cases run the real threads under dsched with yield '
+        'points at lock acquisition, in the fake driver, in time.time(), in send_reply and at the registration of '
+        'handle_activate (seeded random schedules + systematic bounded-preemption schedules).  Connection threads run the '
+        'real Dispatcher.handle_activate (whole node / module / module:parameter), handle_deactivate, remove_connection / '
+        'reset_connection for connections that are or are not activated when the history starts, concurrently with the '
+        'driver threads; two small scenario families (activation racing with updates; a connection leaving during a '
+        'fan-out) are explored systematically.  Compared with the model: resolved omit interval, every message per '
         'connection in order (parameter, kind, exported value bit-exact or error name + text, timestamp), final cache '
         '(value bit-exact, error class/text, timestamp), and for threaded runs the schedule must be executable by the model.  '
         'non-trivial = at least one message after the activation snapshot; distinct = distinct case contents.')
@@ -37,8 +42,11 @@ ASSUMPTIONS = [
     'datatypes of generated parameters: FloatRange, IntRange, BoolType, EnumType, StringType, ArrayOf(IntRange), StructOf, TupleOf '
     '(no ScaledInteger / BLOBType); NaN only as top-level double value; raw values kept by "write_ returned None" are canonical or ints for doubles',
     'no user callbacks registered with addCallback, no check_ functions, SECoP exceptions carry exactly one positional argument',
-    'connections are activated before the history starts (activation racing with updates is property C08)',
-    'threads are preempted only at synchronisation points (lock acquire, fake driver entry, time.time(), send_reply)',
+    'handle_activate / handle_deactivate / remove_connection are called directly by the connection threads (not through '
+    'handle_request, whose dispatcher-wide lock would serialise requests): more interleavings than a real server has',
+    'threads are preempted only at synchronisation points (lock acquire, fake driver entry, time.time(), send_reply, '
+    'the add() of a subscriber set in handle_activate, a harness yield before handle_deactivate / remove_connection)',
+    'fake connections hash to their index, so listener sets are iterated in index order (up to 4 connections)',
     'value equality of the property = python == on the exported values (so a silent 0.0 -> -0.0 change within the omit interval is not reported)',
 ]
 
@@ -134,11 +142,30 @@ class _Env:
                 import time
                 return getattr(time, name)
 
+        class YSet(set):
+            """a subscriber set whose add() is a synchronisation point (the registration of handle_activate)"""
+            __slots__ = ()
+
+            def add(self_, x):
+                if env.sched is not None and not env.setup:
+                    env.sched.switch('reg')
+                set.add(self_, x)
+
+        class YDict(dict):
+            def setdefault(self_, key, default=None):
+                if key not in self_:
+                    dict.__setitem__(self_, key, YSet())
+                return dict.__getitem__(self_, key)
+
         self.clock = Clock()
         self.secnode = SecNode()
         self.restart = self.shutdown = None
         self.dispatcher = Dispatcher('dispatcher', _Log(), {}, self)
+        self.dispatcher._active_connections = YSet()
+        self.dispatcher._subscriptions = YDict()
         self.conns = []
+        self.inside = 0        # threads inside announceUpdate / handle_activate
+        self.fanout = []       # exceptions that escaped from the dispatcher's fan-out into announceUpdate
 
     def conn(self, idx):
         env = self
@@ -156,7 +183,34 @@ class _Env:
                 self.msgs.append(copy.deepcopy(msg))
         c = Conn()
         self.conns.append(c)
+        self.dispatcher.add_connection(c)
         return c
+
+    def spec(self, sc, pobjs):
+        """SECoP specifier of a scope"""
+        case = self.case
+        if sc[0] == 'all':
+            return None
+        if sc[0] == 'mod':
+            return case['mods'][sc[1]]['name']
+        return f"{case['mods'][case['params'][sc[1]]['mod']]['name']}:{pobjs[sc[1]].export}"
+
+    def regs(self, pobjs):
+        """the registrations the dispatcher holds, per connection, as scopes"""
+        case, d = self.case, self.dispatcher
+        res = []
+        for c in self.conns:
+            l = []
+            if c in d._active_connections:
+                l.append(['all'])
+            for mi, mc in enumerate(case['mods']):
+                if c in d._subscriptions.get(mc['name'], ()):
+                    l.append(['mod', mi])
+            for pi, p in enumerate(case['params']):
+                if pobjs[pi].export and c in d._subscriptions.get(f"{case['mods'][p['mod']]['name']}:{pobjs[pi].export}", ()):
+                    l.append(['par', pi])
+            res.append(l)
+        return res
 
 
 def _driver_read(env, pname, pidx):
@@ -266,6 +320,9 @@ def flat_ops(case):
     for ops in case['threads']:
         l = []
         for op in ops:
+            if op['k'] in CONN_OPS:
+                l.append(op)
+                continue
             if op['k'] == 'readvia':
                 subs = [{'k': 'read', 'p': op['q'], 'res': ['raise', op['exc']], 'dt': op['dt']},
                         {'k': 'read', 'p': op['p'], 'res': ['raise', op['exc']], 'dt': op['dt']}]
@@ -289,19 +346,31 @@ def _policy(spec):
     return dsched.Preempt(spec['points'])
 
 
+CONN_OPS = ('activate', 'deactivate', 'reset')
+
+
+def is_threaded(case):
+    return len(case['threads']) > 1 or any(op['k'] in CONN_OPS for ops in case['threads'] for op in ops)
+
+
 def run_case(case):
     import frappy.modulebase as mb
     from frappy.lib import generalConfig
     from frappy.core import Module, Parameter
+    from frappy.logging import RemoteLogHandler
     from harness import dsched
 
     nthreads = len(case['threads'])
-    sched = dsched.Scheduler(_policy(case['sched']), max_steps=4000) if nthreads > 1 else None
+    sched = dsched.Scheduler(_policy(case['sched']), max_steps=4000) if is_threaded(case) else None
     env = _Env(case, sched)
     saved_cfg = generalConfig._config
     saved_time = mb.time
     generalConfig.testinit(omit_unchanged_within=case['general'] / TICK)
     mb.time = env.clock
+
+    class MLog(_Log):
+        handlers = [RemoteLogHandler()]       # reset_connection switches remote logging off through it
+
     try:
         mods = []
         for mi, mc in enumerate(case['mods']):
@@ -320,7 +389,7 @@ def run_case(case):
             cfg = {'description': 'x'}
             if mc['omit'] is not None:
                 cfg['omit_unchanged_within'] = mc['omit'] / TICK
-            m = cls(mc['name'], _Log(), cfg, env)
+            m = cls(mc['name'], MLog(), cfg, env)
             env.secnode.modules[mc['name']] = m
             env.secnode.export.append(mc['name'])
             m.earlyInit()
@@ -342,19 +411,33 @@ def run_case(case):
         # activation (before the history)
         for ci, sc in enumerate(case['conns']):
             c = env.conn(ci)
-            if sc[0] == 'all':
-                spec = None
-            elif sc[0] == 'mod':
-                spec = case['mods'][sc[1]]['name']
-            else:
-                spec = f"{case['mods'][case['params'][sc[1]]['mod']]['name']}:{pobjs[sc[1]].export}"
-            env.dispatcher.handle_activate(c, spec, None)
+            if sc[0] != 'none':
+                env.dispatcher.handle_activate(c, env.spec(sc, pobjs), None)
         obs['snap'] = [len(c.msgs) for c in env.conns]
         obs['now0'] = env.now
+        # observation points at the boundary module -> dispatcher and around the announce region
+        for m in mods:
+            def cb(modobj, pobj, _orig=m.updateCallback):
+                try:
+                    return _orig(modobj, pobj)
+                except Exception as e:
+                    env.fanout.append([type(e).__name__, str(e)])
+                    raise
+            m.updateCallback = cb
+
+            def au(*a, _orig=m.announceUpdate, **k):
+                env.inside += 1
+                try:
+                    return _orig(*a, **k)
+                finally:
+                    env.inside -= 1
+            m.announceUpdate = au
         env.setup = False
         results = [[] for _ in case['threads']]
         states = []          # single thread: cache after every op
         nmsg = []            # ... and number of messages per connection so far
+        quiet = []           # threaded: cache / registrations / message counts whenever an op ends with no thread
+        #                      inside announceUpdate or handle_activate
 
         def do(op, mod, pname):
             k = op['k']
@@ -368,12 +451,31 @@ def run_case(case):
             ts = op['ts'] / TICK if op.get('ts') else None
             return mod.announceUpdate(pname, G.untag(op['v']), err, ts)
 
+        def do_conn(op):
+            c = env.conns[op['c']]
+            d = env.dispatcher
+            if op['k'] == 'activate':
+                env.inside += 1
+                try:
+                    return d.handle_activate(c, env.spec(op['sc'], pobjs), None)
+                finally:
+                    env.inside -= 1
+            sched.switch('conn')
+            if op['k'] == 'deactivate':
+                return d.handle_deactivate(c, env.spec(op['sc'], pobjs), None)
+            if op.get('via') == 'reset':
+                return d.reset_connection(c)
+            return d.remove_connection(c)
+
         def worker(ti):
             for op in case['threads'][ti]:
-                p = case['params'][op['p']]
                 env.cur[threading.get_ident()] = op
                 try:
-                    do(op, mods[p['mod']], p['name'])
+                    if op['k'] in CONN_OPS:
+                        do_conn(op)
+                    else:
+                        p = case['params'][op['p']]
+                        do(op, mods[p['mod']], p['name'])
                     results[ti].append('ok')
                 except Exception as e:
                     results[ti].append(type(e).__name__)
@@ -381,6 +483,9 @@ def run_case(case):
                 if sched is None:
                     states.append([_cell(env, po) for po in pobjs])
                     nmsg.append([len(c.msgs) for c in env.conns])
+                elif env.inside == 0:
+                    quiet.append({'cells': [_cell(env, po) for po in pobjs], 'n': [len(c.msgs) for c in env.conns],
+                                  'regs': env.regs(pobjs), 'after': [ti, len(results[ti]) - 1]})
 
         if sched is None:
             worker(0)
@@ -400,8 +505,11 @@ def run_case(case):
         obs['results'] = results
         obs['conns'] = [[_msg(env, index, m) for m in c.msgs] for c in env.conns]
         obs['final'] = [_cell(env, po) for po in pobjs]
+        obs['regs'] = env.regs(pobjs)
+        obs['fanout'] = env.fanout
         obs['states'] = states
         obs['nmsg'] = nmsg
+        obs['quiet'] = quiet
         return obs
     finally:
         mb.time = saved_time
@@ -429,6 +537,17 @@ def enc_dres(r):
     if r[0] == 'done':
         return 'DDone'
     return f'(DRaise {enc_exc(r[1])})'
+
+
+def enc_job(o):
+    k = o['k']
+    if k == 'activate':
+        return f"(JConn {gal.nat(o['c'])} (AActivate {enc_scope(o['sc'])}))"
+    if k == 'deactivate':
+        return f"(JConn {gal.nat(o['c'])} (ADeactivate {enc_scope(o['sc'])}))"
+    if k == 'reset':
+        return f"(JConn {gal.nat(o['c'])} AReset)"
+    return f'(JOp {enc_op(o)})'
 
 
 def enc_op(o):
@@ -461,6 +580,8 @@ def enc_msg(m):
 
 
 def enc_scope(sc):
+    if sc[0] == 'none':
+        return 'SNone'
     return 'SAll' if sc[0] == 'all' else (f'(SMod {gal.nat(sc[1])})' if sc[0] == 'mod' else f'(SPar {gal.nat(sc[1])})')
 
 
@@ -485,12 +606,12 @@ def encode(case, obs):
             gal.nat(p['mod']), gs(case['mods'][p['mod']]['name']), gs(p['name']), gal.option(ex, gs),
             G.gal_dtype(p['d'], dt), gal.z(om_i)))
     progs = flat_ops(case)
-    return ('{| k_general := %s; k_params := %s; k_conns := %s; k_init := %s; k_now := %s; k_progs := %s; k_sched := %s; '
-            'k_threaded := %s; k_msgs := %s; k_final := %s |}' % (
-                gal.z(case['general']), gal.lst(params, str), gal.lst(case['conns'], enc_scope),
+    return ('{| k_general := %s; k_params := %s; k_conns := %s; k_nmods := %s; k_init := %s; k_now := %s; k_progs := %s; '
+            'k_sched := %s; k_threaded := %s; k_msgs := %s; k_final := %s |}' % (
+                gal.z(case['general']), gal.lst(params, str), gal.lst(case['conns'], enc_scope), gal.nat(len(case['mods'])),
                 gal.lst(obs['init'], enc_cell), gal.z(obs['now0']),
-                gal.lst(progs, lambda l: gal.lst(l, enc_op)), gal.lst(obs['decisions'], gal.nat),
-                gal.boolean(len(case['threads']) > 1),
+                gal.lst(progs, lambda l: gal.lst(l, enc_job)), gal.lst(obs['decisions'], gal.nat),
+                gal.boolean(is_threaded(case)),
                 gal.lst(obs['conns'], lambda l: gal.lst(l, enc_msg)), gal.lst(obs['final'], enc_final)))
 
 
@@ -534,7 +655,16 @@ def _covers(case, obs, sc, p):
     return sc[0] == 'all' or (sc[0] == 'mod' and case['params'][p]['mod'] == sc[1]) or (sc[0] == 'par' and sc[1] == p)
 
 
+def _last_view(msgs, p):
+    ms = [m for m in msgs if m['p'] == p]
+    return _client_view(ms[-1]) if ms else None
+
+
 def oracle(case, obs):
+    """the property, on the observation only.  A quiescent point = no thread inside announceUpdate / handle_activate
+    (the end of the run; in threaded runs also every op end at which the harness counted nobody inside).  At each of
+    them: for every connection, every scope it is registered for (the dispatcher's own sets), every exported parameter
+    in that scope: the last update / error_update it received for the parameter is the cached value-or-error."""
     fails = []
 
     def fail(cls, what, **kw):
@@ -543,32 +673,48 @@ def oracle(case, obs):
     if obs['status'] != 'ok':
         fail('run-' + obs['status'], f"threads did not finish: {obs.get('thread_errors')}")
         return fails
+    # every cache change is announced: nothing may escape from the fan-out into the thread that changed the cache
+    for name, text in obs['fanout'][:1]:
+        fail('fanout-exception', f'the fan-out of an update raised {name}: {text} into the updating thread; '
+             f'the cache had already changed')
     nparams = len(case['params'])
+    touched = {op['c'] for ops in case['threads'] for op in ops if op['k'] in CONN_OPS}
+
+    def check_point(regs, cells, counts, where, **kw):
+        for ci, scs in enumerate(regs):
+            msgs = obs['conns'][ci] if counts is None else obs['conns'][ci][:counts[ci]]
+            for p in range(nparams):
+                if not any(_covers(case, obs, sc, p) for sc in scs):
+                    continue
+                tag = f"{where}: connection {ci} parameter {case['params'][p]['name']}"
+                last, cache = _last_view(msgs, p), _cache_view(cells[p])
+                if last is None:
+                    fail('no-snapshot', f'{tag}: activated, but no message at all', p=p, **kw)
+                elif not _view_eq(last, cache):
+                    only_text = (last[0] == cache[0] == 'error' and last[1] == cache[1] and last[-1] == cache[-1])
+                    fail('stale-error-text' if only_text else 'replay-differs',
+                         f'{tag}: last message {last} but the node caches {cache}', p=p, **kw)
+
+    check_point(obs['regs'], obs['final'], None, 'end of the run')
+    for qi, q in enumerate(obs['quiet']):
+        check_point(q['regs'], q['cells'], q['n'], f"quiescent point after op {q['after'][1]} of thread {q['after'][0]}", q=qi)
+
+    # connections activated before the history and never (de)activated in it
     per = {}
     for ci, sc in enumerate(case['conns']):
+        if ci in touched or sc[0] == 'none':
+            continue
         for p in range(nparams):
-            if not _covers(case, obs, sc, p):
-                continue
-            ms = [m for m in obs['conns'][ci] if m['p'] == p]
-            per[(ci, p)] = ms
-            tag = f"connection {ci} parameter {case['params'][p]['name']}"
-            if not ms:
-                fail('no-snapshot', f'{tag}: no message at all')
-                continue
-            # replaying the stream reproduces the cache
-            last, cache = _client_view(ms[-1]), _cache_view(obs['final'][p])
-            if not _view_eq(last, cache):
-                only_text = (last[0] == cache[0] == 'error' and last[1] == cache[1] and last[-1] == cache[-1])
-                fail('stale-error-text' if only_text else 'replay-differs',
-                     f'{tag}: last message {last} but the node caches {cache}', p=p)
-    # every connection sees the same per-parameter sequence after its snapshot
+            if _covers(case, obs, sc, p):
+                per[(ci, p)] = [m for m in obs['conns'][ci] if m['p'] == p]
+    # ... see the same per-parameter sequence after their snapshot
     for p in range(nparams):
         seqs = [(ci, ms[1:]) for (ci, q), ms in per.items() if q == p and ms]
         for ci, s in seqs[1:]:
             if [_client_view(m) for m in s] != [_client_view(m) for m in seqs[0][1]]:
                 fail('connections-disagree', f"parameter {case['params'][p]['name']}: connection {ci} and {seqs[0][0]} got different streams", p=p)
     # single thread: quiescent point after every op -> order, no phantom state, every change (recovery!) announced
-    if len(case['threads']) == 1 and obs['states']:
+    if not is_threaded(case) and obs['states']:
         for (ci, p), ms in per.items():
             if not ms:
                 continue
@@ -612,6 +758,8 @@ def _reused_oids(case):
     for ops in case['threads']:
         for op in ops:
             xs = []
+            if op['k'] in CONN_OPS:
+                continue
             if op['k'] == 'readvia':
                 xs = [op['exc'], op['exc']]
             elif op['k'] in ('read', 'write') and op.get('res') and op['res'][0] == 'raise':
@@ -630,7 +778,12 @@ def _is_shared_exception_text(case, obs, failure):
     if failure['class'] != 'stale-error-text':
         return False
     p = failure.get('p')
-    err = obs['final'][p]['err'] if failure.get('op') is None else obs['states'][failure['op']][p]['err']
+    if failure.get('op') is not None:
+        err = obs['states'][failure['op']][p]['err']
+    elif failure.get('q') is not None:
+        err = obs['quiet'][failure['q']]['cells'][p]['err']
+    else:
+        err = obs['final'][p]['err']
     return err is not None and err['oid'] in _reused_oids(case)
 
 
@@ -649,7 +802,8 @@ def outcome_labels(case, obs):
     labs = [f"threads={len(case['threads'])}"]
     for ops in case['threads']:
         for op in ops:
-            labs.append('op=' + op['k'] + (':' + op['res'][0] if op.get('res') else ''))
+            labs.append('op=' + op['k'] + (':' + op['res'][0] if op.get('res') else '')
+                        + (':' + op['sc'][0] if op.get('sc') else ''))
     post = sum(len(c) for c in obs.get('conns', [])) - sum(obs.get('snap', []))
     labs.append('messages=' + ('0' if post == 0 else '1-5' if post <= 5 else '6+'))
     for c in obs.get('conns', []):
@@ -660,7 +814,7 @@ def outcome_labels(case, obs):
 
 def sample_repr(case, obs):
     return {'params': [(p['name'], p['d']['t'], p['uu']) for p in case['params']], 'conns': case['conns'],
-            'threads': [[(o['k'], o['p']) for o in ops] for ops in case['threads']],
+            'threads': [[(o['k'], o.get('p', o.get('c'))) for o in ops] for ops in case['threads']],
             'messages': [[(m['p'], m['kind'], m['ts']) for m in c] for c in obs.get('conns', [])]}
 
 
@@ -825,6 +979,84 @@ def rand_case(rng, nthreads, maxops=14):
     return case
 
 
+def rand_scope(rng, case, allow_none=False):
+    r = rng.random()
+    nmods = len(case['mods'])
+    exp = [i for i, p in enumerate(case['params']) if p['export']]
+    if allow_none and r < 0.35:
+        return ['none']
+    if r < 0.6:
+        return ['all']
+    if r < 0.8 or not exp:
+        return ['mod', rng.randrange(nmods)]
+    return ['par', rng.choice(exp)]
+
+
+def rand_conn_case(rng):
+    """driver threads + connection threads: activation / deactivation / removal racing with updates"""
+    nd = rng.choice([1, 1, 2])
+    case = rand_case(rng, nd + 1, 3)                 # threaded flavour of the driver ops (no nested reads)
+    del case['threads'][nd:]
+    for t in case['threads']:
+        del t[3:]
+    nconn = rng.randint(2, 4)
+    case['conns'] = [rand_scope(rng, case, allow_none=True) for _ in range(nconn)]
+    if all(sc[0] == 'none' for sc in case['conns']) and rng.random() < 0.7:
+        case['conns'][0] = ['all']
+    for _ in range(rng.choice([1, 1, 2])):
+        ci = rng.randrange(nconn)
+        ops = []
+        active = case['conns'][ci][0] != 'none'
+        for _ in range(rng.choice([1, 1, 2])):
+            r = rng.random()
+            if not active or r < 0.5:
+                ops.append({'k': 'activate', 'c': ci, 'sc': rand_scope(rng, case)})
+                active = True
+            elif r < 0.8:
+                sc = rng.choice([case['conns'][ci]] + [o['sc'] for o in ops if o['k'] == 'activate']
+                                + [rand_scope(rng, case)])
+                ops.append({'k': 'deactivate', 'c': ci, 'sc': sc if sc[0] != 'none' else ['all']})
+            else:
+                ops.append({'k': 'reset', 'c': ci, 'via': rng.choice(['remove', 'reset'])})
+                active = False
+        case['threads'].append(ops)
+    case['sched'] = {'kind': 'seeded', 'seed': rng.randrange(1 << 30), 'stick': rng.choice([0.0, 0.5, 0.8])}
+    return case
+
+
+def scenario_base(rng, kind):
+    """small bases for the systematic exploration of the two races the multi-thread clause is about:
+    'activate': a connection is being activated while driver threads change parameters;
+    'leave': a connection deactivates / is removed while an update is being fanned out"""
+    fl = {'t': 'float', 'min': _f(-100), 'max': _f(100)}
+    nmods = rng.choice([1, 2]) if kind == 'activate' else 1
+    case = {'general': 0, 'mods': [{'name': MODNAMES[i], 'omit': None} for i in range(nmods)], 'params': [], 'conns': [],
+            'threads': [], 'sched': {'kind': 'explicit', 'decisions': []}}
+    for i in range(nmods if nmods == 2 else rng.choice([1, 2])):
+        case['params'].append({'mod': i if nmods == 2 else 0, 'name': PNAMES[i], 'd': fl, 'export': True,
+                               'uu': rng.choice(['always', 'default']), 'has_write': False,
+                               'init': ['default', G.tag(float(i))]})
+
+    def assign(p, v):
+        return {'k': 'assign', 'p': p, 'v': G.tag(float(v)), 'dt': 1}
+    np_ = len(case['params'])
+    if kind == 'activate':
+        case['conns'] = [['none']] + ([['all']] if rng.random() < 0.5 else [])
+        sc = rng.choice([['all'], ['all'], ['mod', 0], ['par', 0]])
+        case['threads'] = [[assign(0, 10)] + ([assign(np_ - 1, 11)] if rng.random() < 0.5 else []),
+                           [{'k': 'activate', 'c': 0, 'sc': sc}]]
+    else:
+        n = rng.choice([2, 3])
+        case['conns'] = [['all']] * n
+        if rng.random() < 0.3:
+            case['conns'][rng.randrange(n)] = ['mod', 0]
+        ci = rng.randrange(n)
+        leave = rng.choice([{'k': 'reset', 'c': ci, 'via': 'remove'}, {'k': 'reset', 'c': ci, 'via': 'reset'},
+                            {'k': 'deactivate', 'c': ci, 'sc': case['conns'][ci]}])
+        case['threads'] = [[assign(0, 10), assign(0, 10)], [leave]]
+    return case
+
+
 def _explore(case, max_preempt, limit):
     """explicit-schedule variants of `case` discovered with dsched.explore on the real code"""
     from harness import dsched
@@ -866,16 +1098,20 @@ def _run_for_steps(case):
 
 def gen_cases(seed, tier):
     rng = random.Random(f'C05-{seed}-{tier}')
-    n1, n2, nsys, lim = {'quick': (1200, 300, 3, 50), 'thorough': (8000, 1600, 10, 150),
-                          'search': (6000, 2500, 10, 200)}[tier]
+    n1, n2, n3, nsys, lim = {'quick': (1000, 250, 300, 2, 50), 'thorough': (8000, 1600, 1600, 8, 150),
+                              'search': (6000, 2500, 2500, 8, 200)}[tier]
     cases = [rand_case(rng, 1) for _ in range(n1)]
     cases += [rand_case(rng, rng.choice([2, 2, 3])) for _ in range(n2)]
+    cases += [rand_conn_case(rng) for _ in range(n3)]
     for _ in range(nsys):
         base = rand_case(rng, 2, 3)
         for t in base['threads']:
             del t[2:]
         base['sched'] = {'kind': 'explicit', 'decisions': []}
         cases.extend(_explore(base, 2, lim))
+    # the two races of the multi-thread clause, systematically (all schedules with <= 2 preemptions, up to lim)
+    for kind in ('activate', 'leave') * (1 if tier == 'quick' else 3):
+        cases.extend(_explore(scenario_base(rng, kind), 2, lim))
     return cases
 
 
